@@ -50,15 +50,22 @@ def run(ctx, chk):
                             break
                         a = seq[i + 1].args[0] if seq[i + 1].args else None
                         look = getattr(a, "look", None)
-                        want = ("R", len(p["symbols"])) if nt == "procedure" else ("L", 0)
+                        want = ("L", 0)
+                        if nt == "procedure":
+                            # the implied ret is written at the closing brace: the start location of the "}" terminal.
+                            # (An end location @R is the position of the *following* character, which is the line
+                            # terminator when the token ends the line: the lookup then cites the next line.)
+                            braces = [i for i, sy in enumerate(p["symbols"]) if sy["t"] == "term" and sy["name"].strip('"') == "}"]
+                            want = ("L", braces[-1]) if braces else ("L", 0)
                         if look is None:
                             chk.violation("C16.R1", label, "entry-not-a-position", f"{label}: add_entry({seq[i + 1].arg_descs}) is not a lookaround position of this production", where)
                             ok_ = False
                             break
                         if look != want:
-                            chk.violation("C16.R1", label, f"entry-position-{look[0]}{look[1]}",
+                            chk.violation("C16.R1", label, f"entry-position-{look[0]}{'' if look[0] == 'R' else look[1]}",
                                           f"{label}: the instruction is mapped to @{look[0]} at symbol {look[1]}, expected @{want[0]} at symbol {want[1]} (start of the instruction"
-                                          f"{' / closing brace' if nt == 'procedure' else ''})", where)
+                                          f"{' = the closing brace' if nt == 'procedure' else ''})"
+                                          + ("; an end location is the position of the following character: when the token ends its line the next line is cited" if look[0] == "R" else ""), where)
                             ok_ = False
                             break
                         i += 2
@@ -67,7 +74,7 @@ def run(ctx, chk):
                         ok_ = False
                         break
                 if ok_:
-                    chk.ok("C16.R1", label, "push;add_entry(@L0)" if nt != "procedure" else "push;add_entry(@R end)")
+                    chk.ok("C16.R1", label, "push;add_entry(@L0)" if nt != "procedure" else "push;add_entry(@L of the closing brace)")
     # R2
     if "macro_use" in GA.nts:
         for k, p in enumerate(GA.productions("macro_use")):
